@@ -14,6 +14,7 @@
      EvRespond                       send_response (head encoded; body-less => State::None)
      EvBodyChunk / EvBodyEnd         SendPayload arm, only while |write_buf| < h1_write_buffer_size
      EvAccept                        poll_flush: the socket took k bytes
+     EvDrop                          the handler drops its request Payload (PayloadStatus::Dropped from then on)
 
    [step] is partial: None = the guard of that code region is closed in this state.
    The second half of the file ([poll]) sequences these events the way `Dispatcher::poll`'s normal
@@ -152,7 +153,8 @@ Section Step.
   | EvBodyChunk (e : N)
   | EvBodyEnd (e : N)
   | EvAccept (k : N)
-  | EvEof.
+  | EvEof
+  | EvDrop.
 
   Definition guard (b : bool) (s : st) : option st := if b then Some s else None.
 
@@ -268,6 +270,13 @@ Section Step.
                  | Some _ => set_tgt TgNone (set_cpl None (upd_tgt (fun ch => ch_feed_eof (ch_set_error ch)) s))
                  | None => s
                  end)
+    | EvDrop =>
+        (* the running service call drops its Payload: the sender's Weak no longer upgrades *)
+        match state s, hch s with
+        | SService, Some _ =>
+            Some (set_tgt (match tgt s with TgHandler => TgNone | t => t end) (set_hch None s))
+        | _, _ => None
+        end
     end.
 
   (* total version: a closed guard leaves the state alone *)
@@ -291,6 +300,7 @@ Inductive hact :=
 | HWait                                         (* Pending until the next external event (round with r_hw) *)
 | HRead                                         (* take one chunk from the request payload; Pending while it is empty *)
 | HReadAll                                      (* read the payload to its end *)
+| HDrop                                         (* drop the request payload unread *)
 | HRespond (h : N) (body : option (list bact)). (* Ready(Ok(response)); h = encoded head length *)
 
 Inductive pres := PPend | PDone | PFailTooLarge | PFailIo.
@@ -366,8 +376,7 @@ Section Poll.
     | S f =>
         if c_maxb c <=? rb (m x) then
           (* need_read is evaluated (io waker registered on Pause); forced self-wake otherwise *)
-          let paused := match need_read_status (m x) with Some PPause => true | _ => false end in
-          (wake (negb paused) (do_ev EvNeedRead x), false)
+          (wake (cap_self_wake (need_read_status (m x))) (do_ev EvNeedRead x), false)
         else if 0 <? sock x then
           let n := N.min (sock x) (c_r c) in
           let x1 := do_ev (EvRead n) x in
@@ -395,6 +404,8 @@ Section Poll.
                         else (set_hreg true x, None)
             end
         | HRespond h b :: r => (set_hs_cur (hs x) [] x, Some (h, b))
+        | HDrop :: r =>
+            run_handler f (set_hs_cur (hs x) r (match hch (m x) with Some _ => do_ev EvDrop x | None => x end))
         | (HRead as a) :: r | (HReadAll as a) :: r =>
             let again := match a with HReadAll => true | _ => false end in
             match hch (m x) with
